@@ -428,6 +428,8 @@ def gen_cell(rng, k, mods_dir):
         ("target", 8), ("import_local", 3), ("probe", 1), ("probe_known", 2),
         # round 4: the other triggers of the _ofind hook; auto-imports interrupted by the imported module itself
         ("pinfo_fn", 2), ("pinfo2", 1), ("autocall_on", 3), ("known_int", 2), ("known_exit", 1),
+        # hunt 2 (C13-H4): the user's statement under %debug builds a debugger with keyword arguments
+        ("debug_kw", 2), ("run_enc", 2),
     ]
     kind = rng.choices([a for a, _ in kinds], weights=[b for _, b in kinds])[0]
     return make_cell(kind, i, k, mods_dir)
@@ -473,6 +475,8 @@ def make_cell(kind, i, k, mods_dir):
         return run(f"%run {mods_dir}/zzq_script.py")
     if kind == "run_plain":
         return run(f"%run {mods_dir}/zzq_script_plain.py")
+    if kind == "run_enc":
+        return run(f"%run {mods_dir}/zzq_script_enc_{k % 2}.py")      # UTF-8 BOM / PEP 263 cookie: valid for the interpreter
     if kind in ("run_odd", "run_odd_needs"):
         d, fn = gen_c14.ODD_PATHS[k % len(gen_c14.ODD_PATHS)]
         path = f"{mods_dir}/{d}/{fn}_{'plain' if kind == 'run_odd' else 'needs'}.py"
@@ -492,6 +496,13 @@ def make_cell(kind, i, k, mods_dir):
         return run("import zzq_localhelper\nzzq_localhelper.WHERE")
     if kind == "debug":
         return run(f"%debug {k}+2")
+    if kind == "debug_kw":
+        # 'c' on stdin lets the statement run; it constructs IPython's Pdb with a keyword argument while pyflyby's
+        # __init__ advice (HookPdbCtx) is in force
+        kw = ["context=3", "completekey='tab'", "skip=None, context=5"][k % 3]
+        return run("import sys as zzq_sys, io as zzq_io\nzzq_old = zzq_sys.stdin; zzq_sys.stdin = zzq_io.StringIO('c\\n')\n"
+                   f"%debug print('made', type(__import__('IPython').core.debugger.Pdb({kw})).__name__, {k})\n"
+                   "zzq_sys.stdin = zzq_old")
     if kind == "two_known":
         return run(f"(zzq_mod_{i}.VALUE, zzq_mod_{(i + 1) % gen_c14.N_MODS}.VALUE)")
     if kind == "autocall":
